@@ -225,6 +225,16 @@ Theorem handoff_fiber_parked_while_simulator_runs :
 Proof. exact handoff_fiber_parked_proof. Qed.
 Print Assumptions handoff_fiber_parked_while_simulator_runs.
 
+(* Several fibers (each with its own mutex / flags / condition variables) and one simulator thread that is inside
+   at most one start()/resume()/terminate() call at a time: no two fiber bodies ever run at the same time, and
+   none runs while the simulator proper runs. *)
+Theorem multi_fiber_mutex : forall n ss, mreachable n ss ->
+  (forall i j s t, i <> j -> nth_error ss i = Some s -> nth_error ss j = Some t ->
+     fiber_user s = true -> fiber_user t = true -> False) /\
+  (sim_user ss -> forall s, In s ss -> fiber_user s = false).
+Proof. exact multi_fiber_mutex_proof. Qed.
+Print Assumptions multi_fiber_mutex.
+
 (* no deadlock / no lost wake-up: every reachable state that is not the final one has a step that is not a
    spurious wake-up *)
 Theorem handoff_progress : forall s, reachable s -> final s = true \/ exists s', In s' (step_nospurious s).
